@@ -2671,3 +2671,59 @@ func ruleIntersectionArgOrder(rule string) func(*Ctx) {
 			"getIntersection tries the rectangle's edges in an order that depends on which end of the segment is given first; with the ends exchanged a segment entering next to a corner is reported at the wrong crossing or dropped")
 	}
 }
+
+// ruleUntouchedByWinding: C06 — a path that never touches the rectangle either misses it or winds round all of it
+// w times; C06 asks for winding w inside. The decision must therefore be made on the winding number of the path
+// about the rectangle, not on crossing PARITY: PointInPolygon flips a state per crossing (val = 1 - val), so a path
+// that goes round the rectangle twice counts as "outside" and nothing is returned.
+func ruleUntouchedByWinding(rule string) func(*Ctx) {
+	return func(c *Ctx) {
+		f := c.fn("(RectClip64).executeInternal")
+		// the routine(s) consulted for an untouched path: callees of executeInternal (and unknown helpers) that reach
+		// PointInPolygon
+		var via []string
+		for _, g := range freshRegion(c, f) {
+			for _, ci := range calls(g) {
+				h := ci.Common().StaticCallee()
+				if h == nil || !c.inRepo(h) {
+					continue
+				}
+				if c.fname(h) == "PointInPolygon" || len(callsTo(c, h, "PointInPolygon")) > 0 {
+					via = append(via, c.fname(h))
+				}
+			}
+		}
+		pip := c.fnOpt("PointInPolygon")
+		parity := false
+		if pip != nil {
+			for _, g := range freshRegion(c, pip) {
+				for _, b := range g.Blocks {
+					for _, in := range b.Instrs {
+						switch x := in.(type) {
+						case *ssa.BinOp: // val = 1 - val
+							if x.Op == token.SUB && isConstInt(x.X, 1) {
+								if _, isPhi := x.Y.(*ssa.Phi); isPhi {
+									parity = true
+								}
+							}
+						case *ssa.UnOp: // inside = !inside
+							if x.Op == token.NOT {
+								if _, isPhi := x.X.(*ssa.Phi); isPhi {
+									parity = true
+								}
+							}
+						}
+					}
+				}
+			}
+		}
+		bad := ""
+		if len(via) > 0 && parity {
+			sort.Strings(via)
+			bad = fmt.Sprintf("whether a path that never touches the rectangle contains it is decided through %s -> PointInPolygon, a crossing-PARITY test (its state is flipped per crossing): a path that winds round the rectangle an even number of times is taken to miss it", strings.Join(uniq(via), ", "))
+		}
+		c.check(bad == "", rule, rule+":executeInternal:parity", f.Pos(), "(RectClip64).executeInternal",
+			"the rectangle is returned for an untouched path according to the path's winding about it", bad,
+			"C06 asks for the input's winding number at every interior point: a self-overlapping path that encircles the rectangle twice has winding 2 there, and the result must too")
+	}
+}
